@@ -10,6 +10,7 @@ import (
 	"strings"
 	"time"
 
+	"github.com/hashicorp/raft/zzverif/vrand"
 	"github.com/hashicorp/raft/zzverif/vsched"
 	"github.com/hashicorp/raft/zzverif/vtime"
 )
@@ -74,7 +75,7 @@ type strat struct {
 	preempts int
 }
 
-func (st *strat) Coarse() bool { return !st.w.sc.Fine }
+func (st *strat) Coarse() bool { return !(st.w.sc.Fine && st.w.fineNow) }
 
 func (st *strat) Choose(s *vsched.Sched, opts []vsched.Transition, nThread, cur int) int {
 	w := st.w
@@ -82,7 +83,7 @@ func (st *strat) Choose(s *vsched.Sched, opts []vsched.Transition, nThread, cur 
 		return -1
 	}
 	if nThread > 0 {
-		if !w.sc.Fine {
+		if !(w.sc.Fine && w.fineNow) {
 			if cur >= 0 {
 				return cur
 			}
@@ -196,13 +197,18 @@ func runOnce(sc *Scenario, prefix []int, prefixLabels []string, trace bool) (res
 	if debugPrefix {
 		fmt.Fprintln(os.Stderr, "RUN", prefix)
 	}
-	w := &World{sc: sc, blocked: map[[2]int]bool{}, keepTr: trace, vals: map[string]int{}}
+	w := &World{sc: sc, blocked: map[[2]int]bool{}, keepTr: trace, vals: map[string]int{}, tvals: map[string]time.Duration{}, randExtra: map[int]int64{}}
+	vrand.Int63Fn = func() int64 {
+		if n := w.nodeOfCur(); n != nil {
+			return w.randExtra[n.id]
+		}
+		return 0
+	}
 	w.rec = &Recorder{prefix: prefix, prefixLabels: prefixLabels}
 	w.mon = newMonitors(w)
 	st := &strat{w: w}
 	s := vsched.New(st)
 	w.sched = s
-	s.Fine = sc.Fine
 	vtime.Reset()
 	s.EnvFn = func(nThread int) []vsched.EnvT {
 		if nThread > 0 || w.internalErr != "" {
